@@ -17,13 +17,13 @@ RULE = (
 )
 ASSUMPTIONS = ["reference model vf/ref.py", "VertexSet.items() enumerates exactly the states of the set (AEON trusted)"]
 DEADLINE = 300
-ORDERS = ["sets-first", "seeds-first", "cands-first", "reclaim"]
+ORDERS = ["sets-first", "seeds-first", "cands-first", "reclaim", "raw-cands-first"]
 
 
 def cases(tier, seed):
     rng = random.Random(f"C12/{seed}")
     nmax, count = (7, 5000) if tier == "quick" else (8, 30000)
-    cl = [("gadget", 4), ("dense-neg", 4), ("rand", 2), ("rand-wide", 2), ("inputs", 2), ("overlap-maa", 0.3)]
+    cl = [("gadget", 4), ("dense-neg", 4), ("rand", 2), ("rand-wide", 2), ("inputs", 2), ("overlap-maa", 0.3), ("rings", 3)]
     nets = gen.corpus() + [gen.draw(rng, cl, nmax) for _ in range(count)] + [gen.model_net(f) for f in gen.models_up_to(9 if tier == "quick" else 12)]
     out = []
     for n in nets:
@@ -77,6 +77,9 @@ def run_case(case):
                 W(lambda: sd.node_attractor_seeds(i, compute=True), nodes=len(sd))
             elif order == "cands-first":
                 W(lambda: sd.node_attractor_candidates(i, compute=True), nodes=len(sd))
+            elif order == "raw-cands-first":
+                # un-minified candidates (many spurious ones): the exact symbolic filter has to do all the work
+                W(lambda: sd.node_attractor_candidates(i, compute=True, greedy_asp_minification=False, simulation_minification=False), nodes=len(sd))
             elif order == "reclaim":
                 W(lambda: sd.node_attractor_seeds(i, compute=True), nodes=len(sd))
                 sd.reclaim_node_data()
@@ -138,6 +141,23 @@ def run_case(case):
             res.inconclusive = f"aborted: {e}"
         except RuntimeError as e:
             res.v(f"fallback-raised:{kind}", f"node {i}: {e}", ctx=ctx)
+    # the aggregate accessor must agree with the per-node one (expanded nodes with a non-empty list only)
+    try:
+        xs = W(lambda: sd.expanded_attractor_sets(), nodes=len(sd))
+        res.c("expanded_attractor_sets_calls")
+        for i in sd.node_ids():
+            d = sd.node_data(i)
+            mine = [bb.vset_states(ref, a)[0] for a in (d["attractor_sets"] or [])]
+            if d["expanded"] and mine:
+                got = [bb.vset_states(ref, a)[0] for a in xs.get(i, [])]
+                if got != mine:
+                    res.v("expanded_attractor_sets-differs", f"node {i}: expanded_attractor_sets() disagrees with node_attractor_sets()", ctx={"rules": rules})
+            elif i in xs:
+                res.v("expanded_attractor_sets-extra-node", f"node {i} (expanded={d['expanded']}) listed with {len(xs[i])} sets", ctx={"rules": rules})
+    except bb.Aborted as e:
+        res.inconclusive = f"aborted: {e}"
+    except RuntimeError:
+        res.c("runtime_errors")
     res.nontrivial = nt
     if nt and case["rs"] % 40 == 0:
         res.sample = {"rules": rules, "mode": case["mode"], "order": order}
